@@ -30,6 +30,15 @@ def union_specs(tier):
              lattice=40),
         dict(family='banana', d=3, n=70, member='Ellipsoid', unit=True, enlarge=1.3, splits=2,
              lattice=12),
+        # heavily overlapping members (multiplicity 4-5 -> 12 / 60 thresholds)
+        dict(family='blob', d=2, n=80, member='Ellipsoid', unit=True, enlarge=1.8, splits=4,
+             lattice=40),
+        dict(family='blob', d=2, n=80, member='UnitCubeEllipsoidMixture', unit=True, enlarge=2.5,
+             splits=3, lattice=40),
+        dict(family='face', d=2, n=80, member='Ellipsoid', unit=True, enlarge=2.0, splits=4,
+             lattice=40),
+        dict(family='blob', d=3, n=100, member='Ellipsoid', unit=True, enlarge=1.6, splits=4,
+             lattice=12),
     ]
     if tier == 'thorough':
         for sp in specs:
